@@ -61,6 +61,9 @@ def render(s):
             wh += ", for<'b> Self: ::dxrt::TagL<'b>"
     gdef = "<T>" if generic else ""
     defs = [f"#[derive(Clone)] pub struct A{gdef}(pub {fty});"]
+    if s["shape"] in ("paren", "frag") and (s["op"] in C.BINOPS[::2]):
+        # `Self` in the where-clause (also inside a bound that has a binder of its own) of these spellings
+        wh = "where Self: ::core::marker::Sized, u8: for<'x> ::dxrt::TagP<'x, Self>"
     if s["shape"] == "self_const":
         defs.append("impl A { pub const N: usize = 2; }")
         if not s["lref"]:
